@@ -55,6 +55,11 @@ RULE = ('corpus (26 edge cases), then a skeleton (every scale of {0.5,0.75,1,1.5
         'amplitude / mask / tilt list and Plane.copy() in between, every call compared with the model applied to the CURRENT '
         'attributes and with the same call on a fresh equal plane; SEQUENCES of different planes sharing only the scale or the '
         'output shape; after every call the returned plane is mutated and the original re-inspected; '
+        'FLOAT REGIME: non-terminating ratios (1/3, 2/3, 10/13, 10/7, ... as decimal pixel scales / scales, and sizes whose IEEE '
+        'product n*s lies within 1e-9 of an integer) decided without the model: pixel scale == ps/s to 1e-15 with s the IEEE '
+        'quotient, == the requested pixel scale to 1e-12, shape == ceil of the IEEE product, resample(t) bit-identical to '
+        'rescale(ps/t) on a fresh equal plane (twin, now for every single call), and the resampled plane multiplies into a '
+        'wavefront with a plane already on the requested grid (whenever ps/(ps/t) == t in binary64); '
         'non-trivial = array amplitude, scale != 1, no refusal')
 
 TOL = 1e-9
@@ -199,11 +204,20 @@ def the_scale(c):
         return Fraction(c['scale'])
     if c['ps'] is None:
         return None
+    if c.get('inexact'):    # float regime: the scale is the IEEE quotient the implementation itself forms (resample)
+        return Fraction(float(Fraction(c['ps'][0])) / float(Fraction(c['new_ps'])))
     return Fraction(c['ps'][0]) / Fraction(c['new_ps'])
+
+
+def out_size(c, n, s):
+    """ceil(n*s); in the float regime (non-terminating ratios) the product is the IEEE product, as np.ceil sees it"""
+    return math.ceil(n * float(s)) if c.get('inexact') else math.ceil(n * s)
 
 
 def float_exact(c):
     """float arithmetic of shape and scale is exact for this case"""
+    if c.get('inexact'):
+        return False
     s = the_scale(c)
     if s is None or s <= 0:
         return True
@@ -489,6 +503,55 @@ def generate(rng, tier):
                     c['ps'] = ['1/64', '1/64']
                     c['ps_form'] = 'scalar'
                 out.append(c)
+    # float regime: non-terminating ratios (1/3, 2/3, 10/13, 10/7, ...) given as decimal pixel scales / scales; the scale the
+    # implementation works with is the IEEE quotient, shapes follow the IEEE product; no model, oracle + twin + interoperability
+    pairs = [(1e-3, 3e-3), (2e-3, 3e-3), (1e-3, 1.3e-3), (1e-3, 7e-4), (5e-3, 1.5e-2), (3e-3, 7e-3), (1.5e-3, 1.1e-3),
+             (2.5e-3, 9e-4), (7e-3, 3e-3), (1e-3, 6e-4)]
+    n_inexact = 12 if quick else 80
+    for k in range(n_inexact):
+        hi = 30 if quick else 48
+        c = rnd_plane(rng, rng.randint(16, hi), rng.randint(16, hi), special=False)
+        if k % 4 == 3:
+            c['op'] = 'rescale'
+            c['scale'] = str(Fraction(rng.choice([1 / 3, 2 / 3, 0.7, 1.3, 10 / 13, 2.7, 10 / 7, 0.3 + 0.1 * rng.randint(1, 30)])))
+            c['ps'] = [str(Fraction(rng.choice([1e-3, 2e-3, 0.015625])))] * 2
+        else:
+            c['op'] = 'resample'
+            if k < len(pairs):
+                a, b = pairs[k]
+            else:
+                a = rng.randint(3, 60) * 1e-4
+                b = rng.randint(3, 60) * 1e-4
+                if not 0.3 <= a / b <= 3.5:
+                    continue
+            c['ps'] = [str(Fraction(a))] * 2
+            c['new_ps'] = str(Fraction(b))
+        c['inexact'] = True
+        c['arg_form'] = rng.choice(['float', 'float', 'np64', 'array0d'])
+        c['ps_form'] = rng.choice(['tuple', 'scalar', 'list', 'array'])
+        if constructible(c):
+            out.append(c)
+    # float noise next to an integer: sizes for which the IEEE product n*s is within 1e-9 of an integer without being one
+    # (0.005/0.015 = 0.33333333333333337, 48*s = 16.000000000000004 -> 17 samples): ceil() must see the product as it is
+    noisy = []
+    for a, b in pairs + [(None, x) for x in (1 / 3 + 1e-16, 2 / 3, 0.7, 1.3, 10 / 13, 1.1, 2.2, 0.6)]:
+        sf = b if a is None else a / b
+        for n in range(16, 49):
+            pr = n * sf
+            if pr != round(pr) and abs(pr - round(pr)) < 1e-9:
+                noisy.append((a, b, n))
+    rng.shuffle(noisy)
+    for a, b, n in noisy[:6 if quick else 40]:
+        c = rnd_plane(rng, n, rng.choice([n, n, rng.randint(16, 30)]), special=False)
+        if a is None:
+            c.update({'op': 'rescale', 'scale': str(Fraction(b)), 'ps': ['1/64', '1/64']})
+        else:
+            c.update({'op': 'resample', 'ps': [str(Fraction(a))] * 2, 'new_ps': str(Fraction(b))})
+        c['inexact'] = True
+        c['arg_form'] = 'float'
+        c['ps_form'] = 'scalar'
+        if constructible(c):
+            out.append(c)
     # tiny planes (2..6 samples), randomly interleaved: they exercise the same code paths and are small enough for the
     # runner's vm_compute cross-check of the extracted binary
     tiny = []
@@ -514,6 +577,8 @@ def classify(c):
         ups = sorted({st['do'] for st in c['steps'] if st['do'] not in CALLS})
         return 'history/' + '+'.join(ups)
     s = the_scale(c)
+    if c.get('inexact'):
+        return f"{c['op']}/float-regime (non-terminating ratio)"
     if s is None:
         sc = 'no-ps'
     elif s == 1:
@@ -581,6 +646,8 @@ def encode(c):
                 return None
             out += e
         return out
+    if c.get('inexact'):
+        return None     # float regime (non-terminating ratio): decided by the oracle and the rescale(ps/t) twin only
     q = Fraction(c['scale']) if c['op'] == 'rescale' else Fraction(c['new_ps'])
     if q <= 0:
         return None
@@ -780,12 +847,28 @@ def run_one(p, c, fresh=False):
                'in_amp': Arr(before[0]), 'in_opd': Arr(before[1]), 'in_mask': Arr(before[2])}
         if fresh:       # the same call on a fresh plane with equal attributes: no history
             res['fresh_diff'] = fresh_diff(c, res)
+        if c['op'] == 'resample':
+            res['interop'] = interop(c, q)
         # second step: use the returned plane, then look at the original again
         use_result(q)
         leak = snapshot_diff(before, snapshot(p))
     res['untouched_after_use'] = leak is None
     res['leak'] = leak or ''
     return res
+
+
+def interop(c, q):
+    """a plane resampled to t and a plane that already lives on the grid t are applied to one wavefront"""
+    lentil = C.import_lentil()
+    t = float(Fraction(c['new_ps']))
+    try:
+        shape = q.mask.shape[-2:]
+        other = lentil.Plane(amplitude=np.ones(shape), pixelscale=t)
+        w = lentil.Wavefront(650e-9) * other
+        w = w * q
+        return None
+    except Exception as e:      # noqa: BLE001
+        return f'{type(e).__name__}: {str(e)[:120]}'
 
 
 def fresh_diff(c, res):
@@ -846,7 +929,7 @@ def run_impl(c):
         return run_history(c)
     if c['op'] == 'sequence':
         return {'steps': [run_one(mk_plane(v), v, fresh=False) for v in c['cases']]}
-    return run_one(mk_plane(c), c)
+    return run_one(mk_plane(c), c, fresh=True)
 
 
 # ------------------------------------------------------------------ comparison with the model
@@ -977,7 +1060,7 @@ def nearest_index(n, N, s, j):
 def nn_masks(c, s):
     """nearest-neighbour resampling of the mask segments in plain Python (ties up, 0 outside [0, n-1])"""
     n, m = c['n'], c['m']
-    N, M = math.ceil(n * s), math.ceil(m * s)
+    N, M = out_size(c, n, s), out_size(c, m, s)
     amp, _, mask = build(c)
     if mask is None:
         mask = np.asarray(amp)
@@ -1009,7 +1092,7 @@ def oracle(c, impl):
         return accuracy_verdict(impl)
     if c['op'] in MULTI:
         for k, (v, r) in enumerate(zip(calls_of(c), impl['steps'])):
-            msg = oracle(v, r)
+            msg = oracle(v, {k_: x for k_, x in r.items() if k_ != 'fresh_diff'})
             if not msg and r.get('fresh_diff'):
                 msg = 'the result depends on the history of the plane: ' + r['fresh_diff']
             if msg:
@@ -1040,7 +1123,7 @@ def oracle(c, impl):
     want = [[float(t.x), float(t.y)] for t in (lentil.Tilt(x=x, y=y) for x, y in c.get('tilt', []))]
     if impl['tilt'] != want:
         return f"tilt bookkeeping of the result {impl['tilt']} is not the plane's current {want}"
-    N, M = math.ceil(n * s), math.ceil(m * s)
+    N, M = out_size(c, n, s), out_size(c, m, s)
     arrays = [('mask', impl['mask'].a)]
     if np.ndim(amp) == 2:
         arrays.append(('amplitude', impl['amp'].a))
@@ -1068,6 +1151,18 @@ def oracle(c, impl):
             new = Fraction(impl['ps'][k])
             if not abs(NN * new - nn * ps) < new * (1 + Fraction(1, 10 ** 12)):
                 return f'physical extent changed by more than one sample on axis {k}'
+        if c['op'] == 'resample':
+            t = Fraction(c['new_ps'])
+            for k in range(2):
+                if abs(Fraction(impl['ps'][k]) - t) > t / 10 ** 12:
+                    return (f"resample({float(t)!r}) returned pixelscale[{k}] = {impl['ps'][k]!r}: not the requested pixel scale "
+                            f"(relative error {float(abs(Fraction(impl['ps'][k]) - t) / t):.2e})")
+            tf, pf = float(t), float(Fraction(c['ps'][0]))
+            if impl.get('interop') and pf / (pf / tf) == tf:
+                return ('the resampled plane cannot be applied to a wavefront together with a plane that already lives on the '
+                        'requested grid: ' + impl['interop'])
+    if impl.get('fresh_diff'):
+        return ('resample(t) is not rescale(pixelscale/t): ' if c['op'] == 'resample' else 'the call is not repeatable: ') + impl['fresh_diff']
     # mask: binary integers, same segment structure
     mi = impl['mask'].a
     in_mask = impl['in_mask'].a
